@@ -3,8 +3,8 @@
    one delivery of m to the root, afterwards the plan is empty and every report bit below n is clear. *)
 From Coq Require Import List Arith Bool NArith.
 From FFSM2 Require Import Model.TaskList Model.BitArray Model.BitStream Model.Plan Model.Ancestors Model.Machine
-  Proofs.BitArrayProofs Proofs.MachineFrame Proofs.MachinePlan Proofs.MachineLife Proofs.GuardProofs Proofs.CycleProofs Proofs.PlanStep
-  Proofs.SerialProofs Proofs.LogProofs Proofs.MachineTop Model.Multi Generated.InitFacts Proofs.ConstructProofs Proofs.LifeMonitor Proofs.ActivationRounds Proofs.IndexSafety Proofs.FeatureProofs.
+  Proofs.BitArrayProofs Proofs.TaskListProofs Proofs.TaskListRun Proofs.PlanProofs Proofs.MachineFrame Proofs.MachinePlan Proofs.MachineLife Proofs.GuardProofs Proofs.CycleProofs Proofs.PlanStep
+  Proofs.SerialProofs Proofs.LogProofs Proofs.MachineTop Model.Multi Generated.InitFacts Proofs.ConstructProofs Proofs.LifeMonitor Proofs.ActivationRounds Proofs.IndexSafety Proofs.FeatureProofs Model.Script Proofs.Contract Proofs.Histories Proofs.StatusBits.
 Import ListNotations.
 
 (* no status or no plan ever created: nothing happens *)
@@ -110,13 +110,63 @@ Print Assumptions C09_failure_delivered.
    ever delivered *)
 Theorem C09_exists_only_by_append :
   forall (P : Type) (cfg : config) (orc : oracle P),
-         (forall (t : list (event P)) (w : who) (r : recipient) (m : method) (v : view P),
+         (forall (t : list (event P)) (w : who) (r : recipient) (m : method) (v : Machine.view P),
           Forall (no_append P) (orc t w r m v)) ->
          forall (s : mstate P) (op : api_op P),
          ~ append_op P op ->
          pd_exists (plan P (co P (fst (step P cfg orc s op)))) = true -> pd_exists (plan P (co P s)) = true.
 Proof. exact (plan_exists_only_by_append). Qed.
 Print Assumptions C09_exists_only_by_append.
+
+(* over whole histories: the hypotheses of the case statements above hold at the plan step of every update()/react() of
+   every in-contract history *)
+Theorem C09_every_plan_step_of_every_history :
+  forall (P : Type) (cfg : config) (orc : oracle P),
+         wf_cfg cfg ->
+         wf_oracle P cfg orc ->
+         forall (lg : bool) (pre : list (api_op P)) (op : api_op P) (post : list (api_op P))
+           (mpre mmid mpost : method),
+         ops_ok P cfg orc (construct P cfg orc lg) (pre ++ op :: post) ->
+         is_cycle_op P op = Some (mpre, mmid, mpost) ->
+         let s := run P cfg orc lg pre in
+         let a := active P (co P s) in
+         let
+         '(s3, k3) := at_plan_step P cfg orc mpre mmid mpost s in
+          a < c_n cfg /\
+          active P (co P s3) = a /\
+          PIc P cfg (plan P (co P s3)) /\
+          wf (N.of_nat (c_n cfg)) (pd_succ (plan P (co P s3))) /\
+          wf (N.of_nat (c_n cfg)) (pd_fail (plan P (co P s3))) /\
+          (exists l : list (event P), tr P s3 = l ++ tr P s /\ MachineFrame.quiet P cfg a l) /\
+          run P cfg orc lg (pre ++ [op]) =
+          (let
+           '(s4, _) := if c_plans cfg then deep_update_plans P cfg orc (s3, k3) else (s3, k3) in
+            process_request P cfg orc (if c_plans cfg then upd_plan P (pd_clear_region_statuses P) s4 else s4)).
+Proof. exact (every_plan_step_of_every_history). Qed.
+Print Assumptions C09_every_plan_step_of_every_history.
+
+(* the converse over whole histories: in any cycle of any history in which a plan exists and the active state has a
+   failure outstanding when the plan step runs, planFailed() is delivered in that cycle, no task fires and the plan is
+   empty afterwards *)
+Theorem C09_failure_delivered_in_every_history :
+  forall (P : Type) (cfg : config) (orc : oracle P),
+         wf_cfg cfg ->
+         wf_oracle P cfg orc ->
+         forall (lg : bool) (pre : list (api_op P)) (op : api_op P) (post : list (api_op P))
+           (mpre mmid mpost : method),
+         c_plans cfg = true ->
+         ops_ok P cfg orc (construct P cfg orc lg) (pre ++ op :: post) ->
+         is_cycle_op P op = Some (mpre, mmid, mpost) ->
+         let s := run P cfg orc lg pre in
+         let
+         '(s3, k3) := at_plan_step P cfg orc mpre mmid mpost s in
+          pd_exists (plan P (co P s3)) = true ->
+          ba_get (pd_fail (plan P (co P s3))) (N.of_nat (active P (co P s3))) = true ->
+          let
+          '(s4, k4) := deep_update_plans P cfg orc (s3, k3) in
+           outcome_post P cfg orc MPlanFailed SFailure s3 k3 s4 k4.
+Proof. exact (failure_delivered_in_every_history). Qed.
+Print Assumptions C09_failure_delivered_in_every_history.
 
 (* the abstract plan invariant the statements above quantify over is inhabited by the concrete one *)
 Theorem plan_invariant_exists :
